@@ -545,7 +545,15 @@ def rule_local_context_is_the_stack(ctx, facts, rule):
             new_tls[m.group(1)] = k
     roots = [p for p in LOCAL_ENTRY if p in facts.fns]
     ctx.floor(rule, "fastrace::local", len(roots), 6, "local entry points")
-    par = facts.reachable(roots)
+    # state that belongs to the local context is state that opening / releasing a scope touches (the id generator, say, is
+    # per-thread state too, but no scope operation goes near it)
+    openers = [p for p in ("fastrace::span::Span::set_local_parent", "fastrace::local::local_collector::LocalCollector::start",
+                           "fastrace::local::local_collector::LocalCollector::new",
+                           "<fastrace::local::local_collector::LocalCollector as core::ops::drop::Drop>::drop",
+                           "<fastrace::span::LocalParentGuard as core::ops::drop::Drop>::drop",
+                           "fastrace::local::local_collector::LocalCollector::collect",
+                           STACK + "register_span_line", STACK + "unregister_and_collect") if p in facts.fns]
+    par = facts.reachable(openers)
     bad = []
     for p in sorted(par):
         g = facts.fns.get(p)
